@@ -97,6 +97,10 @@ func (g *argGen) args(depth, max int) stack.Args {
 // variants a similarity level must ignore or respect.
 func (g *argGen) perturbArgs(a stack.Args) stack.Args {
 	out := stack.Args{Elided: a.Elided}
+	if g.r.Intn(12) == 0 {
+		// same printed values, only the trailing ", ..." differs: a shape difference at every level
+		out.Elided = !out.Elided
+	}
 	out.Values = make([]stack.Arg, len(a.Values))
 	for i := range a.Values {
 		v := a.Values[i]
@@ -142,6 +146,15 @@ func (g *argGen) signature() stack.Signature {
 	for i := 0; i < n; i++ {
 		fc := fileUniverse[r.Intn(len(fileUniverse))]
 		s.Stack.Calls = append(s.Stack.Calls, mkCall(symbolUniverse[r.Intn(len(symbolUniverse))], fc, 1+r.Intn(3), g.args(0, 3)))
+	}
+	if r.Intn(12) == 0 {
+		// deep recursion: many frames of one location class (counts of 60..130)
+		fc := fileUniverse[r.Intn(len(fileUniverse))]
+		sym := symbolUniverse[r.Intn(len(symbolUniverse))]
+		k := 60 + r.Intn(70)
+		for i := 0; i < k; i++ {
+			s.Stack.Calls = append(s.Stack.Calls, mkCall(sym, fc, 7, stack.Args{}))
+		}
 	}
 	s.Stack.Elided = r.Intn(10) == 0
 	return s
